@@ -9,14 +9,15 @@
 //! is forwarded in fragments of case-chosen sizes (`h2` cases).
 //!
 //! Case grammar (space separated):
-//!   (call|h2).S<q><s>.C<s'> <yieldThr> RQMD <hmap> RQ <k> <tok>*k RQCUT <j> <step>*j
+//!   (call|h2|h2x).S<q><s>.C<s'> <yieldThr> RQMD <hmap> RQ <k> <tok>*k RQCUT <j> <step>*j
 //!        H <reads> E <status|-> INIT <hmap> BODY <k> <tok>*k FINAL <status|-> RSCUT <j> <step>*j
 //!     q,s,s' ∈ {0,1}: server entry point takes a request stream / returns a response stream;
 //!                     client API returns a response stream
 //!     hmap   = <n> (<name> <value>)*n        wire entries (hex), in order
 //!     tok    = x<hex> message | p Pending
 //!     step   = <size> take that many bytes as one data frame | p Pending
-//!              (for `h2` cases the steps are the fragment sizes of the byte pipe, cyclically)
+//!              (for `h2` cases the steps are the fragment sizes of the byte pipe, cyclically;
+//!               `h2x` = the same call three times concurrently on the one connection)
 //!     status = <code> <msg> <details> <hmap>
 //! Observed (after a summary token `K=<handler got>/<client got>`):
 //!   SEEN notcalled | SEEN unary <rhmap> <msg> | SEEN stream <rhmap> <k> <msg>*k open|done|err <rstatus>
@@ -69,6 +70,8 @@ pub struct StatusSpec {
 #[derive(Clone, Debug)]
 pub struct Case {
     pub h2: bool,
+    /// number of concurrent identical calls on the one HTTP/2 connection (`h2x` cases)
+    pub conc: usize,
     pub srv_req_stream: bool,
     pub srv_resp_stream: bool,
     pub cli_resp_stream: bool,
@@ -133,7 +136,7 @@ impl Case {
     pub fn line(&self) -> String {
         format!(
             "{}.S{}{}.C{} {} RQMD {} RQ {} RQCUT {} H {} E {} INIT {} BODY {} FINAL {} RSCUT {}",
-            if self.h2 { "h2" } else { "call" },
+            if self.h2 && self.conc > 1 { "h2x" } else if self.h2 { "h2" } else { "call" },
             b(self.srv_req_stream),
             b(self.srv_resp_stream),
             b(self.cli_resp_stream),
@@ -223,7 +226,7 @@ pub fn parse_case(line: &str) -> Option<Case> {
         return None;
     }
     let kind = head[0];
-    if kind != "call" && kind != "h2" {
+    if kind != "call" && kind != "h2" && kind != "h2x" {
         return None;
     }
     let s = head[1].as_bytes();
@@ -251,7 +254,8 @@ pub fn parse_case(line: &str) -> Option<Case> {
     c.expect("RSCUT")?;
     let rs_cut = c.steps()?;
     Some(Case {
-        h2: kind == "h2",
+        h2: kind != "call",
+        conc: if kind == "h2x" { 3 } else { 1 },
         srv_req_stream: s[1] == b'1',
         srv_resp_stream: s[2] == b'1',
         cli_resp_stream: cl[1] == b'1',
@@ -533,8 +537,17 @@ impl Handler {
         }
         render_headers(&h)
     }
+    /// every invocation must have seen the same thing (concurrent identical calls)
+    fn record(&self, what: String) {
+        let mut cur = self.seen.lock().unwrap();
+        if *cur == "notcalled" {
+            *cur = what;
+        } else if *cur != what && !cur.starts_with("DIVERGED") {
+            *cur = format!("DIVERGED {} || {}", cur, what).replace(' ', "_");
+        }
+    }
     fn saw_unary(&self, req: &Request<Vec<u8>>) {
-        *self.seen.lock().unwrap() = format!("unary {} {}", self.seen_md(req.metadata()), hex(req.get_ref()));
+        self.record(format!("unary {} {}", self.seen_md(req.metadata()), hex(req.get_ref())));
     }
     async fn read_stream(&self, req: Request<Streaming<Vec<u8>>>) {
         let (md, _ext, mut s) = req.into_parts();
@@ -560,7 +573,7 @@ impl Handler {
         }
         out.push(' ');
         out.push_str(&ended);
-        *self.seen.lock().unwrap() = out;
+        self.record(out);
     }
 }
 
@@ -905,9 +918,34 @@ fn exec_h2(case: Case) -> String {
             Err(_) => return "K=notcalled/hang SEEN notcalled CLIENT hang".to_string(),
         };
         // hyper's server adds `date`; it is not part of what tonic or the handler sent
-        let client = match tokio::time::timeout(Duration::from_secs(60), client_call(&case, channel, &["date"])).await {
-            Ok(s) => s,
-            Err(_) => "CLIENT hang".to_string(),
+        let client = if case.conc <= 1 {
+            match tokio::time::timeout(Duration::from_secs(60), client_call(&case, channel, &["date"])).await {
+                Ok(s) => s,
+                Err(_) => "CLIENT hang".to_string(),
+            }
+        } else {
+            // the same call several times at once on the one connection: h2 interleaves the
+            // frames of the streams; every call must come out the same
+            let mut handles = Vec::new();
+            for _ in 0..case.conc {
+                let ch = channel.clone();
+                let case = case.clone();
+                handles.push(tokio::spawn(async move {
+                    match tokio::time::timeout(Duration::from_secs(60), client_call(&case, ch, &["date"])).await {
+                        Ok(s) => s,
+                        Err(_) => "CLIENT hang".to_string(),
+                    }
+                }));
+            }
+            let mut results = Vec::new();
+            for h in handles {
+                results.push(h.await.unwrap_or_else(|_| "CLIENT panic".to_string()));
+            }
+            if results.iter().all(|r| *r == results[0]) {
+                results[0].clone()
+            } else {
+                format!("CLIENT DIVERGED {}", results.join("_||_").replace(' ', "_"))
+            }
         };
         for s in stops.lock().unwrap().drain(..) {
             let _ = s.send(());
@@ -1239,6 +1277,7 @@ fn gen_structured(rng: &mut Rng, h2: bool) -> Case {
     let yield_thr = gen_yield(rng, rq_total.max(rs_total));
     Case {
         h2,
+        conc: 1,
         srv_req_stream: q,
         srv_resp_stream: sresp,
         cli_resp_stream: sresp,
@@ -1336,6 +1375,7 @@ fn gen_malformed(rng: &mut Rng, h2: bool) -> Case {
 fn corpus() -> Vec<Case> {
     let base = Case {
         h2: false,
+        conc: 1,
         srv_req_stream: false,
         srv_resp_stream: false,
         cli_resp_stream: false,
@@ -1425,7 +1465,8 @@ pub fn generate(tier: &str, rng: &mut Rng) -> Vec<String> {
         // the corpus over real HTTP/2 as well, whole and byte by byte
         for c in corpus() {
             for plan in [vec![], vec![Step::Take(1)], vec![Step::Take(9), Step::Take(1), Step::Pend, Step::Take(5)]] {
-                h2.push(Case { h2: true, rq_cut: plan.clone(), rs_cut: plan, ..c.clone() }.line());
+                h2.push(Case { h2: true, rq_cut: plan.clone(), rs_cut: plan.clone(), ..c.clone() }.line());
+                h2.push(Case { h2: true, conc: 3, rq_cut: plan.clone(), rs_cut: plan, ..c.clone() }.line());
             }
         }
     }
@@ -1437,8 +1478,12 @@ pub fn generate(tier: &str, rng: &mut Rng) -> Vec<String> {
     for _ in 0..n_mal {
         inproc.push(gen_malformed(rng, false).line());
     }
-    for _ in 0..n_h2 {
-        h2.push(gen_structured(rng, true).line());
+    for i in 0..n_h2 {
+        let mut c = gen_structured(rng, true);
+        if i % 4 == 3 {
+            c.conc = 3;
+        }
+        h2.push(c.line());
     }
     for _ in 0..n_h2_mal {
         h2.push(gen_malformed(rng, true).line());
